@@ -11,12 +11,13 @@
       - sums, scalar multiples, matrix products ([m_mul]: sum over the intermediate Fock states),
         conjugate transposes ([m_adj]).
     Index conventions: [idx l a z] is the ParticleIndex of (site label l, orbital a, spin z);
-    enum spin {down, up} (Misc.h:123) gives down = 0, up = 1 (translator output Gen_LatticePresets.spin_*).
+    enum spin {down, up} (Misc.h:123) gives down = 0, up = 1 (translator output Gen_LatticePresets.spin_up, spin_down).
     "sigma > sigma'" in the documented sums is the numeric order of the spin indices.
 
     Definitions only. *)
 Require Import Bool List Arith.
-From PV Require Import Outcome Fock Poly PolySem Lattice.
+From PV Require Import Lattice.
+From PV Require Import Outcome Fock Poly PolySem.   (* imported last: [state], [op] are Fock's *)
 From PVgen Require Import Gen_LatticePresets.
 Import ListNotations.
 
@@ -72,9 +73,9 @@ Definition down := spin_down.
 
 (** ** a raw term: Value * (product of its operators, read left to right as written) *)
 Definition term_ops (t : Lattice.term L K) : list op :=
-  map (fun x => (if fst x then cdag else cann) (snd x))
+  map (fun x : bool * nat => if fst x then cdag (snd x) else cann (snd x))
       (combine (t_ops t)
-               (map (fun y => idx (fst (fst y)) (snd (fst y)) (snd y))
+               (map (fun y : L * nat * nat => idx (fst (fst y)) (snd (fst y)) (snd y))
                     (combine (combine (t_labels t) (t_orbs t)) (t_spins t)))).
 Definition term_matrix (t : Lattice.term L K) : mat :=
   m_scale (t_val t) (m_prod (map m_op (term_ops t))).
@@ -161,5 +162,58 @@ Definition m_Splus_tot (sites : list (L * nat)) : mat :=
   m_sum sites (fun ln => m_sum (rng (snd ln)) (fun a => m_splus (fst ln) a)).
 Definition m_Sminus_tot (sites : list (L * nat)) : mat :=
   m_sum sites (fun ln => m_sum (rng (snd ln)) (fun a => m_sminus (fst ln) a)).
+
+(** * Executable form of the specification.
+    The definitions above are products of matrices ([m_mul] sums over all intermediate Fock states), which is
+    the documented reading but exponentially expensive to evaluate when nested.  The [x...] versions below
+    replace a product of elementary matrices by the Jordan-Wigner action of the operator string
+    ([coef_mono], right to left) and a product of diagonal matrices by the diagonal of the product.
+    PresetsProofs.v proves [meq (spec_...) (xspec_...)] for every one of them (theorems [xspec_..._ok]); the
+    correspondence check evaluates the [x...] versions. *)
+Definition x_quartic (a b c d : nat) : mat := cm [cdag a; cdag b; cann c; cann d].
+Definition x_hop (i j : nat) : mat := cm [cdag i; cann j].
+Definition sz_val (l : L) (a : nat) (s : state) : K :=
+  kmul khalf (ksub (occ (idx l a up) s) (occ (idx l a down) s)).
+Definition x_szsz (l1 l2 : L) (a : nat) : mat := m_diag (fun s => kmul (sz_val l1 a s) (sz_val l2 a s)).
+Definition x_spsm (l1 l2 : L) (a : nat) : mat :=       (* S^+_{l1 a} S^-_{l2 a} *)
+  cm [cdag (idx l1 a up); cann (idx l1 a down); cdag (idx l2 a down); cann (idx l2 a up)].
+Definition x_smsp (l1 l2 : L) (a : nat) : mat :=       (* S^-_{l1 a} S^+_{l2 a} *)
+  cm [cdag (idx l1 a down); cann (idx l1 a up); cdag (idx l2 a up); cann (idx l2 a down)].
+
+Definition xspec_coulombP (l : L) (norb nspin : nat) (U Up J eps : K) : mat :=
+  let pairs (f : nat -> nat -> mat) : mat :=
+    m_sum (rng norb) (fun a => m_sum_if (rng norb) (fun a' => negb (a =? a')) (fun a' => f a a')) in
+  let spins_gt (f : nat -> nat -> mat) : mat :=
+    m_sum (rng nspin) (fun z => m_sum_if (rng nspin) (fun z' => z' <? z) (fun z' => f z z')) in
+  m_add (m_add (m_add (m_add
+    (m_scale U (m_sum (rng norb) (fun a => spins_gt (fun z z' => m_nn (idx l a z) (idx l a z')))))
+    (m_scale Up (pairs (fun a a' => spins_gt (fun z z' => m_nn (idx l a z) (idx l a' z'))))))
+    (m_scale (kmul (ksub Up J) khalf)
+       (pairs (fun a a' => m_sum (rng nspin) (fun z => m_nn (idx l a z) (idx l a' z))))))
+    (m_scale (kopp J)
+       (pairs (fun a a' => spins_gt (fun z z' =>
+          m_add (x_quartic (idx l a z) (idx l a' z') (idx l a' z) (idx l a z'))
+                (x_quartic (idx l a' z) (idx l a' z') (idx l a z) (idx l a z')))))))
+    (spec_level l norb nspin eps).
+Definition xspec_coulombP3 (l : L) (norb nspin : nat) (U J eps : K) : mat :=
+  xspec_coulombP l norb nspin U (ksub U (kadd J J)) J eps.
+Definition xspec_szsz (l1 l2 : L) (norb : nat) (J : K) : mat :=
+  m_sum (rng norb) (fun a => m_scale J (x_szsz l1 l2 a)).
+Definition xspec_ss (l1 l2 : L) (norb : nat) (J : K) : mat :=
+  m_sum (rng norb) (fun a =>
+    m_scale J (m_add (x_szsz l1 l2 a) (m_scale khalf (m_add (x_spsm l1 l2 a) (x_smsp l1 l2 a))))).
+Definition xspec_hopping8 (l1 l2 : L) (t : K) (o1 o2 s1 s2 : nat) : mat :=
+  m_add (m_scale t (x_hop (idx l1 o1 s1) (idx l2 o2 s2)))
+        (m_scale (kconj t) (x_hop (idx l2 o2 s2) (idx l1 o1 s1))).
+Definition xspec_hopping6 (l1 l2 : L) (nspin : nat) (t : K) (o1 o2 : nat) : mat :=
+  m_sum (rng nspin) (fun z => xspec_hopping8 l1 l2 t o1 o2 z z).
+Definition xspec_hopping4 (l1 l2 : L) (norb nspin : nat) (t : K) : mat :=
+  m_sum (rng nspin) (fun z => m_sum (rng norb) (fun a => xspec_hopping8 l1 l2 t a a z z)).
+Definition x_Splus_tot (sites : list (L * nat)) : mat :=
+  m_sum sites (fun ln => m_sum (rng (snd ln)) (fun a => x_hop (idx (fst ln) a up) (idx (fst ln) a down))).
+Definition x_Sminus_tot (sites : list (L * nat)) : mat :=
+  m_sum sites (fun ln => m_sum (rng (snd ln)) (fun a => x_hop (idx (fst ln) a down) (idx (fst ln) a up))).
+(** a raw term: Value * <t| o_1 o_2 ... o_N |s> *)
+Definition x_term_matrix (t : Lattice.term L K) : mat := m_scale (t_val t) (cm (term_ops t)).
 
 End Spec.
